@@ -897,3 +897,7 @@ def replay(run, data) -> None:
         shutil.rmtree(base, ignore_errors=True)
     run.case('pad', True)
     run.case('pad2', True)
+
+
+# (kept at the end of the file so that the text above stays the description the check was first built to)
+RULE += ' ' + 'Later additions: file sets with non-ASCII names whose lower() differs from casefold() (zip / virtual / directory back ends); the chain wrapped in another chain (alone and behind an empty member) must answer like itself.'
